@@ -2,6 +2,7 @@ import AiutiVerif.Batcher.Outcome
 import AiutiVerif.Batcher.Invariant
 import AiutiVerif.Batcher.NoDup
 import AiutiVerif.Batcher.Cancel
+import AiutiVerif.Batcher.Answer
 /-!
 # Batcher property theorems (C04, C09, C10, C11)
 
@@ -96,6 +97,77 @@ theorem behaviourGo_ends (p : Plan) (b ra : Nat) :
       refine ⟨x, ?_, hh⟩
       simp only [List.map_append, List.mem_append]
       right; exact hx
+
+/-- **The timed machine performs exactly the untimed reading.**  What `pump` (the timed interpretation of
+`_process_batch` inside the machine) does to the futures is a prefix of `runScript` — the function
+`C04_outcome` is about — and what it leaves to do is `runScript` of the remaining batch. -/
+theorem C04_pump_is_runScript (fuel : Nat) (s : St) (b : Batch) :
+    ∃ L, (pump fuel s b).1 = resolveList s L ∧
+      L ++ (match (pump fuel s b).2 with
+            | some b' => runScript b'.futs (acts b'.script)
+            | none => []) = runScript b.futs (acts b.script) :=
+  pump_runScript fuel s b
+
+/-- **C04, "always answers", for every program of inputs (safety half).**  In every state reachable from a
+freshly constructed batcher by any program of calls (any keys), cancellations and `max_batch_size`
+mutations — after every prefix: a caller is suspended only on an unresolved future, and that future is in
+flight: its item is queued, being assembled or waiting for a slot, or its key is still in the dict of
+unanswered futures of a running batch whose script ends with `fin` / `raise` (at which point
+`_process_batch` resolves everything left in that dict: `C04_always_answers`, `C04_pump_is_runScript`). -/
+theorem C04_waiters_are_in_flight_prefix (s0 : St) (hf : Fresh3 s0) (ins : List In) :
+    let s := ins.foldl applyIn s0
+    (∀ w ∈ s.waiting, futState s w.2 = none ∧
+      ((∃ it ∈ flatI s.semWait ++ (asmI s ++ s.queue), it.fut = w.2) ∨ (∃ b ∈ s.running, ∃ e ∈ b.futs, e.2 = w.2))) ∧
+    (∀ b ∈ s.running, endsT b.script = true) := by
+  intro s
+  have hw : Wq s := foldl_applyIn_Wq ins s0 (Rq_fresh s0 hf.1) (Wq_fresh s0 hf)
+  refine ⟨fun w hwm => ?_, hw.2.1⟩
+  obtain ⟨a, b⟩ := hw.1.waitOk w hwm
+  exact ⟨a, hw.1.inFlight w.2 b a⟩
+
+theorem C04_waiters_are_in_flight (s0 : St) (hf : Fresh3 s0) (ins : List In) :
+    let s := runProgram s0 ins
+    (∀ w ∈ s.waiting, futState s w.2 = none ∧
+      ((∃ it ∈ flatI s.semWait ++ (asmI s ++ s.queue), it.fut = w.2) ∨ (∃ b ∈ s.running, ∃ e ∈ b.futs, e.2 = w.2))) ∧
+    (∀ b ∈ s.running, endsT b.script = true) := by
+  intro s
+  have hw : Wq s := runProgram_Wq s0 ins (Rq_fresh s0 hf.1) (Wq_fresh s0 hf)
+  refine ⟨fun w hwm => ?_, hw.2.1⟩
+  obtain ⟨a, b⟩ := hw.1.waitOk w hwm
+  exact ⟨a, hw.1.inFlight w.2 b a⟩
+
+/-- Whoever called is suspended or has been answered — nobody is dropped. -/
+theorem C04_every_call_is_served (s0 : St) (ins : List In) (t c arg key : Nat) (h : In.call t c arg key ∈ ins) :
+    Served (ins.foldl applyIn s0) c ∧ Served (runProgram s0 ins) c := by
+  have h1 := foldl_call_Served ins s0 t c arg key h
+  refine ⟨h1, ?_⟩
+  unfold runProgram
+  exact advance_Mono _ _ _ _ c h1
+
+/-- **C04, "always answers", run level.**  Once nothing is in flight any more — queue, assembly, semaphore
+queue and running batches all empty — every call of the program has its `done` event: a value, an
+exception or its own cancellation; nobody is left pending.  (That the pipeline does drain is the timed /
+liveness half: differential + monitor `pending-forever`.) -/
+theorem C04_all_answered_at_rest (s0 : St) (hf : Fresh3 s0) (ins : List In)
+    (hq : (runProgram s0 ins).queue = []) (ha : (runProgram s0 ins).asm = none)
+    (hs : (runProgram s0 ins).semWait = []) (hr : (runProgram s0 ins).running = []) :
+    (runProgram s0 ins).waiting = [] ∧
+    ∀ t c arg key, In.call t c arg key ∈ ins → ∃ t' o, Out.done t' c o ∈ (runProgram s0 ins).outs := by
+  have hw := (C04_waiters_are_in_flight s0 hf ins).1
+  have hempty : (runProgram s0 ins).waiting = [] := by
+    cases hwt : (runProgram s0 ins).waiting with
+    | nil => rfl
+    | cons w r =>
+      exfalso
+      have := (hw w (by rw [hwt]; simp)).2
+      rcases this with ⟨it, hit, _⟩ | ⟨b, hb, _⟩
+      · simp [flatI, asmI, hq, ha, hs] at hit
+      · rw [hr] at hb; cases hb
+  refine ⟨hempty, ?_⟩
+  intro t c arg key hc
+  rcases (C04_every_call_is_served s0 ins t c arg key hc).2 with hd | ⟨f, hwm⟩
+  · exact hd
+  · rw [hempty] at hwm; cases hwm
 
 /-! ## C09 — cancelling one caller never disturbs the others -/
 
@@ -221,6 +293,12 @@ example : (doneOf 1 (runProgram cancelSt cancelInsA).outs).length = 1 ∧
     (doneOf 2 (runProgram cancelSt cancelInsA).outs).length = 1 ∧
     (doneOf 3 (runProgram cancelSt cancelInsA).outs).length = 1 ∧
     (batchesOf (runProgram cancelSt cancelInsA).outs).length = 2 := by decide +kernel
+
+/-- non-vacuity of the at-rest theorem: the cancel demo drains completely, and mid-run somebody does wait -/
+example : Fresh3 cancelSt := by simp [Fresh3, Fresh2, Fresh, cancelSt]
+example : (runProgram cancelSt cancelInsA).queue = [] ∧ (runProgram cancelSt cancelInsA).asm = none ∧
+    (runProgram cancelSt cancelInsA).semWait = [] ∧ (runProgram cancelSt cancelInsA).running = [] := by decide +kernel
+example : ((cancelInsA.take 3).foldl applyIn cancelSt).waiting.length = 3 := by decide +kernel
 
 /-! ## C11 — same-key requests share, then are computed afresh -/
 
